@@ -34,14 +34,13 @@
   (one run) and length 6 (two runs) over the alphabet
   `( ) L R BN NSM-after-ON ON` with sos, e ∈ {L, R}: no counterexample.
   The pieces that are already general: BD16 (`stageBD16_seq`), N1/N2 (`stageN12_seq`,
-  `spec_go_filterBN`, `stageN12_chars`).  Missing is N0 with removed units between the
-  characters: `n0Pair` writes the new bracket type also to the BN units next to the bracket
-  (`setWhileBN` backwards, `setWhileNsmOrBN` forwards), so after the first pair the removed units
-  no longer all carry BN and the induction over the pairs needs the invariant "a removed unit
-  carries BN, or the type of an already processed bracket with nothing but removed / original-NSM
-  units of that same type in between" (and, for arbitrary data sources, that a paired bracket is
-  not an original NSM).  Multi-unit characters in N0 need the same proof with `setRange` over the
-  character length and `expand`-style lemmas for the scans.
+  `spec_go_filterBN`, `stageN12_chars`).  Missing HERE is N0 with removed units between the
+  characters: `n0Pair` writes the new bracket type also to the BN units in front of the opening
+  bracket (`setWhileBN` backwards; the forward sweep `setWhileNsmOrBN` steps over removed units
+  without writing them), so after the first pair the removed units no longer all carry BN and the
+  induction over the pairs needs an invariant.  That is done in `C01NeutralBN` (`stageN_bn`, invariant
+  `InvBN`).  Multi-unit characters in N0 need the same proof with `setRange` over the
+  character length and `expand`-style lemmas for the scans (done through `Expand*`).
 
   Remark for the composition with StageW: after `resolveWeak` a removed unit does not always
   carry BN.  `#eval resolveWeak (fun _ => some 1) ⟨[(0,4)], R, L⟩ [ON, BN, CS, EN]` gives
